@@ -90,6 +90,7 @@ def schema? (name : String) (pv : Nat) : Option Ty :=
   | "createnft" => some (createNFT pv)
   | "nftdestroyfromsidechain" => some nftDestroyFromSideChain
   | "proposalresult" => some recordProposalResult
+  | "crcproposal" => some (crcProposal pv)
   | _ => none
 
 def measured? : List String → Option Nat
